@@ -775,3 +775,54 @@ def is_varies_class(ex, st, obj):
     cid = ex.H(st, 'cls')[ex.term(obj, 'R')]
     ids = [i for n, i in ex.world.class_ids.items() if n in ('Field', 'Component', 'SubComponent', 'CanBeVaries')]
     return SV(z3.Or(*[cid == i for i in ids]) if ids else z3.BoolVal(False), BOOL)
+
+
+@specfunc('isstr')
+def isstr(ex, st, v):
+    """a dynamically typed value is a str"""
+    if v.ty.kind == 'str':
+        return SV(z3.BoolVal(True), BOOL)
+    return SV(Val.is_VStr(ex.term(v, 'V')), BOOL)
+
+
+@specfunc('ref_kind')
+def ref_kind(ex, st, ref):
+    return SV(_rec(ex, st, ref, 'RefStruct', 'kind'), STR)
+
+
+@specfunc('entry_name')
+def entry_name(ex, st, c):
+    return SV(_rec(ex, st, c, 'ChildEntry', 'name'), STR)
+
+
+@specfunc('method:Library.get_base_datatypes')
+def library_get_base_datatypes(ex, st, obj, args, kwargs, fr):
+    """lib.get_base_datatypes(): the library's own (process-wide) table of base datatype classes - the same object on
+    every call, never a copy"""
+    yield ex.read_field(st, obj, 'base_datatypes')
+
+
+@specfunc('slot_at')
+def slot_at(ex, st, lst, k):
+    """item k of a list of (optional) references, as a reference (0 = None)"""
+    return SV(ex.H(st, 'La.R')[ex.term(lst, 'R')][ex.term(k, 'I')], Opt(ListT(ObjT('Element'))))
+
+
+@specfunc('list_at_str')
+def list_at_str(ex, st, lst, k):
+    return SV(ex.H(st, 'La.S')[ex.term(lst, 'R')][ex.term(k, 'I')], STR)
+
+
+@specfunc('dget_ref')
+def dget_ref(ex, st, d, key):
+    """d.get(key) for a dict of references: the stored reference, None (0) when the key is absent"""
+    a = ex.term(d, 'R')
+    kt = ex.term(key, 'S')
+    return SV(z3.If(ex.H(st, 'Dd')[a][kt], ex.H(st, 'Dv.R')[a][kt], z3.IntVal(0)), Opt(ListT(ObjT('Element'))))
+
+
+@specfunc('tuple_first')
+def tuple_first(ex, st, lst, k):
+    """first item of the k-th tuple of a list of tuples, as a reference"""
+    t = ex.H(st, 'La.R')[ex.term(lst, 'R')][ex.term(k, 'I')]
+    return SV(Val.addr(ex.H(st, 'La.V')[t][0]), ObjT('Element'))
